@@ -97,6 +97,54 @@ CLAIMED = {
              "K4 (Week.Period() panics for 0000-01-01/02 and 9999-12-27..31; Previous() panics where the previous week/month/quarter/year would lie before 0000-01-01) and "
              "F8 (NewPeriodFromPatternString panics on 9999-W52 .. 9999-W99, reachable via --period). Quarter() uses float64 ceil in Go and integer division in the model: covered by the "
              "exhaustive correspondence, not by proof."),
+ "C08": dict(
+   text="Theorems in coq/Properties/C08.v, for ALL byte strings: lines_lossless, blocks_lossless, no_blocks_iff_all_blank, line_numbers_consecutive, block_shape (+ located/wellformed lemmas), by list induction over the executable model of txt.ParseBlock / mapParse; tied to the code by the `blocks` correspondence on conforming documents and byte streams plus an independent Python oracle (re-concatenation, numbering, one significant run per block) and the no-op reconcile run.",
+   design="§4 C08", technique="Coq proof (list induction) over hand model; extracted-model-vs-Go differential correspondence",
+   note=TB + "Axioms: none. Model reflects fix F1 (ParseBlock width)."),
+ "C06": dict(
+   text="Theorems in coq/Properties/C06.v: parse_record never crashes on a block, parse_text is total for every byte string and returns records with one block each XOR at least one error (parse_text_total, never Crash/Err, blockwise characterisation). Every panic site of the Go parser is an explicit Crash in the model. Tied to the code by exhaustive token strings (k=3 quick), mutated documents, random bytes, very long inputs, and an oracle-only run of every read-only command (serial and parallel) on whatever the parser returned.",
+   design="§4 C06", technique="Coq proof (totality by induction, Crash-freedom) over hand model; differential correspondence + end-to-end command runs",
+   note=TB + "Axioms: none. Evaluation commands are covered by the oracle-only `evaluate` suite, not by a theorem (render_errors_total / evaluate_total of DESIGN are not stated). Known finding K1 (sum overflow panic). Hanging/memory exhaustion of the implementation: harness time-outs only."),
+ "C10": dict(
+   text="Theorems in coq/Properties/C10.v: errors_located (line exists, quoted text is that line, 0 <= pos, 0 <= len, pos+len <= runes+1) and errors_ascending for every byte string, by case analysis over all error sites of the parser model with cursor-arithmetic lemmas. Tied to the code by faulted documents (12 fault kinds at every line position; first error on the faulty line), the malformed byte streams, and an oracle-only suite that parses the terminal and JSON renderings (serial and parallel) and compares line / caret offset / caret count / column / length.",
+   design="§4 C10", technique="Coq proof (case analysis over error sites) over hand model; differential correspondence + rendering oracle",
+   note=TB + "Axioms: none. first_error_at_fault is checked by the spec-based fault injector (oracle), not stated as a theorem. Model reflects fixes F3, F9."),
+ "C07": dict(
+   text="Executable model of splitIntoChunks, the per-batch worker, arrival-order collection and the merge loop (coq/Model/Parallel.v); theorems in coq/Properties/C07.v (collect_any_order, chunks_partition, parallel_eq_serial as far as proved — see the file header). Tied to the code by `par` requests: texts x worker counts 1..len+2 x arrival orders forced through the add-only hook; the Go side itself compares parallel and serial results (records, blocks, line indices, errors).",
+   design="§4 C07", technique="Coq proof (permutation invariance, loop invariant) over hand model; differential correspondence with forced schedules",
+   note=TB + "Real goroutine scheduling and channel semantics are not modelled (results are stored by index: ~10 trusted lines). Model reflects fixes F1 and F11 (CRLF never split across chunks)."),
+ "C02": dict(
+   text="Model of service.Total/ShouldTotalSum/Diff/CloseOpenRanges with safemath overflow as Crash (coq/Model/Eval.v); theorems in coq/Properties/C02.v (total_spec etc. under the exact int64 guard). Tied to the code by `klog total --diff [--now]` on conforming documents at chosen instants, compared with the model and with an independent Python evaluation of the specification's rules.",
+   design="§4 C02", technique="Coq proof (list induction, lia) over hand model; differential correspondence + spec oracle",
+   note=TB + "Known finding K1: sums beyond int64 panic."),
+ "C01": dict(
+   text="Specification formalised as a Coq AST with render/denote (coq/Spec/Spec.v); layered theorems in coq/Properties/C01.v that the parser model accepts rendered conforming texts with the denoted data (layers reached are listed in the file header; unproved layers are named _partial). Tied to the code by documents generated from an independent Python transcription of the grammar (lib/specgen.py) whose expected records are compared with the implementation's, and by 12 kinds of injected MUST-violations that must be rejected.",
+   design="§4 C01", technique="Coq proof (layered induction over spec AST) over hand model; differential correspondence + grammar-based generator with expected denotation",
+   note=TB + "Known finding K3 (Zs-only lines). Model reflects fixes F2, F10."),
+ "C09": dict(
+   text="Model of SerialiseRecords with the plain serialiser (coq/Model/Serialiser.v); theorems in coq/Properties/C09.v as far as proved (see file header). Tied to the code by `klog print --no-style` through the real CLI on conforming documents in every admissible formatting: output parsed and printed again by both model and implementation; oracle: same records (only a zero should-total is dropped), second print identical, four-space/LF/one-blank-line layout.",
+   design="§4 C09", technique="Coq proof over hand model; differential correspondence through the real CLI + round-trip oracle",
+   note=TB + "Known finding K2 (summary line ending in a lone CR) — outside the generator (no trailing CR)."),
+ "C03": dict(
+   text="Model of the text reconciler (insert, to_multiline, the six operations, creators) in coq/Model/Reconcile.v and of the commands in coq/Model/Commands.v; theorems in coq/Properties/C03.v as far as proved. Tied to the code by histories of real CLI commands (kong parsing included, fake clock, real files): result bytes compared with the model, and a dynamic-programming minimal-edit oracle (every original line survives in order, only the allowed token/append changes, contiguous insertions).",
+   design="§4 C03", technique="Coq proof over hand model; differential correspondence on command histories + minimal-edit oracle",
+   note=TB + "Model reflects fix F7."),
+ "C04": dict(
+   text="Commands as pure functions file -> file in coq/Model/Commands.v; theorems in coq/Properties/C04.v as far as proved (refinement per command, _partial). Tied to the code by histories of up to 8 commands where the file of one step feeds the next; after each step the re-read records are compared with an abstract model written from the property text (Python: add entry / new record at chronological position with configured should-total / close open range with appended summary / pause by whole elapsed minutes carrying tags; rejected commands change nothing).",
+   design="§4 C04", technique="Coq proof (refinement, partial) over hand model; differential correspondence on histories + abstract-model oracle",
+   note=TB + "Known finding K15 (track with leading blank). Pause loop driven through the add-only tick hook; ticker and signals not modelled."),
+ "C05": dict(
+   text="reconcile_file in the model returns a new file only from its last step; theorems in coq/Properties/C05.v as far as proved (exec_ok_valid, exec_err_no_write). Tied to the code by histories on valid and invalid targets with parameters chosen to make steps fail: success => file parses, failure => bytes identical, no crash.",
+   design="§4 C05", technique="Coq proof over hand model; differential correspondence + fault-oriented histories",
+   note=TB + "os.WriteFile atomicity (crash during the write) is outside the property's quantifier and the model."),
+ "C11": dict(
+   text="Model of determine/elect/tally (first voter wins ties) and ReformatDirective in coq/Model/Reconcile.v; theorems in coq/Properties/C11.v as far as proved. Tied to the code by histories on files with every per-record style combination, ties and whitespace-only lines, each run 4 times from scratch (byte-identical results required), with an oracle for line ending / indentation / date separator of inserted lines (own style > unanimous file style > default).",
+   design="§4 C11", technique="Coq proof over hand model; differential correspondence with repetition + style oracle",
+   note=TB + "Model reflects fixes F4 (deterministic tie-break) and F5 (significant lines only)."),
+ "C17": dict(
+   text="Model of AtDate/AtTime/RoundToNearest/WasAutomatic and the stop fallback in coq/Model/Commands.v; theorems in coq/Properties/C17.v as far as proved (round_spec, at_time_spec, stop_fallback_spec). Tied to the code by a clock-face sweep: start/stop/switch without --time at every minute x 8 roundings x date selections x record layouts, and `total --now` at every minute; oracles: abstract model (expected offsets, failures) and no-crash.",
+   design="§4 C17", technique="Coq proof (lia / lifted clock-face sweep) over hand model; exhaustive clock sweep correspondence",
+   note=TB + "Model reflects fix F6."),
 }
 
 NOT_YET = {}
@@ -127,7 +175,7 @@ def main():
             "guard": "verif",
             "enable": "go build -tags verif (the harness module /verif/harness replaces github.com/jotaen/klog with /repo)",
             "baseline_off_cmd": "cd /repo && go test -mod=mod -vet=off -count=1 -timeout 25m ./...",
-            "source_commits": [],
+            "source_commits": ["1f9ef10", "3105718", "69764b3"],
             "add_only": True,
         },
         "engines": [{"name": "coq-model+correspondence", "path": "/verif/check.py",
